@@ -26,16 +26,20 @@ EXPLANATION = ("Theorems over all masks/trees, about the driver's own definition
                "and compared with the oracle's graph canonical form), backed by Bridge.canonU_spec (every well-formed tree reaches the canonical "
                "seed position by edge inversions + suppression, each keeping the normalised split set), encode_unrooted_invariant_under_inversion, "
                "encode_unrooted_invariant / _flags_invariant, encode_unrooted_eq_usplits, encode_none_eq_unrooted; ucanon_uses_lowest_taxon ties the "
-               "driver's lowIdx to that k (that equal renderSorted strings mean Iso is compared, not proved). (d) rebuild_rooted_topology and "
+               "driver's lowIdx to that k; ucanonT_eq_iff_iso / ucanonT_eq_iff_same_splits(_all): the canonical TREE the driver prints for op "
+               "ucanon2 (re-seeded at the lowest leaf, children in mask order) is equal for two trees iff their re-seedings are Iso iff "
+               "their split sets are equal - for any number of taxa (encode_unrooted_iff_topology_all: < 3 taxa via Bridge.small_shape); "
+               "ucanon_eq_of_iso: the order-free string of op ucanon is invariant too (its injectivity, and that of Hier.render, stay trusted). (d) rebuild_rooted_topology and "
                "rebuild_unrooted_topology (the tree `build` makes of `encode`'s split masks in any order/multiplicity is the encoded topology, has "
                "no unifurcation; both ASSUME members = the tree's taxa, all-bits mask may be larger; the unrooted head filter's complement-on-bit-0 "
                "path provably never fires on an encoding), rebuild_rooted_extras (rooted, namespace with extra members: Iso to the encoded tree "
-               "plus the absent members under a new root), build_rooted_clades. (e) is_trivial_sets, is_compatible_sets, "
+               "plus the absent members under a new root), rebuild_unrooted_extras_partial (unrooted, extra members: Good, NoUnif, and the exact clade "
+               "set = star + every non-empty split mask of the encoding, incl. L\\{k}; the explicit Iso to a reference tree is not spelled out), "
+               "build_rooted_clades. (e) is_trivial_sets, is_compatible_sets, "
                "is_compatible_four_quadrants, is_compatible_unrooted_raw (two raw unrooted leafsets, normalised then tested <-> four-quadrant), "
                "is_nested_sets, tree_compatible_rooted_sets / _unrooted_sets (Tree.is_compatible_with_bipartition with default flags = "
                "compatibility with the bipartition of EVERY edge). Underneath: refinement of the generated integer functions, mask_spec, "
-               "split_spec, norm_sets, ins_spec/build_spec. Not proved: unrooted statements for < 3 taxa (one topology), unrooted rebuild over "
-               "namespaces with extra members, trees with taxon-less leaves (not Good), multiplicity of the encoding list - correspondence + "
+               "split_spec, norm_sets, ins_spec/build_spec. Not proved: trees with taxon-less leaves (not Good), multiplicity of the encoding list - correspondence + "
                "oracle only.")
 
 
@@ -175,6 +179,37 @@ def ucanon_py(tree):
         return k
     parts = split_top(rest[0]) if rest[0].startswith("(") else [rest[0]]
     return "(" + ",".join(sorted(parts + [k])) + ")"
+
+
+def ucanon2_py(tree):
+    """the model's `ucanonT` (driver op `ucanon2`) from the adjacency graph: rooted at the node the lowest leaf hangs from,
+    degree-2 vertices suppressed, children in increasing order of leafset mask, printed structurally"""
+    adj, bit = graph(tree)
+    if not bit:
+        return None
+    low = min(bit, key=lambda v: bit[v])
+
+    def form(v, parent):
+        """(mask, text, children) of the component below v"""
+        kids = [(1 << bit[v], str(bit[v]), None)] if v in bit else []
+        for w in adj[v]:
+            if w != parent:
+                f = form(w, v)
+                if f is not None:
+                    kids.append(f)
+        if not kids:
+            return None
+        if len(kids) == 1:
+            return kids[0]
+        kids.sort(key=lambda f: f[0])
+        return (sum(f[0] for f in kids), "(" + ",".join(f[1] for f in kids) + ")", kids)
+    rest = [f for f in (form(w, low) for w in adj[low]) if f is not None]
+    me = (1 << bit[low], str(bit[low]), None)
+    if not rest:
+        return me[1]
+    parts = (rest[0][2] if rest[0][2] is not None else [rest[0]]) + [me]
+    parts.sort(key=lambda f: f[0])
+    return "(" + ",".join(f[1] for f in parts) + ")"
 
 
 def split_top(s):
@@ -560,6 +595,7 @@ def judge_pair(ctx, dendropy, case, pending):
             u = ucanon_py(t)
             if u is not None and all(nd.taxon is not None for nd in tu.walk(t.seed_node) if not nd._child_nodes):
                 pending.append(("ucanon " + " ".join(case[key]), {"op": "ucanon", "tree": case[key], "rooted": case["rooted"], "ns": case["ns"]}, u))
+                pending.append(("ucanon2 " + " ".join(case[key]), {"op": "ucanon2", "tree": case[key], "rooted": case["rooted"], "ns": case["ns"]}, ucanon2_py(t)))
     s1 = split_set(t1, case.get("flags1", [True, True]))
     s2 = split_set(t2, case.get("flags2", [True, True]))
     ctx.case(["pair", case["tree"], case["tree2"], case["rooted"]], nt, sample=case, kind="pair-same" if c1 == c2 else "pair-diff")
@@ -698,6 +734,11 @@ def judge_ucanon(ctx, dendropy, case, pending):
     pending.append(("ucanon " + " ".join(case["tree"]), case, ucanon_py(t)))
 
 
+def judge_ucanon2(ctx, dendropy, case, pending):
+    t, _ = tree_for_case(dendropy, case)
+    pending.append(("ucanon2 " + " ".join(case["tree"]), case, ucanon2_py(t)))
+
+
 def judge_stale(ctx, dendropy, case, pending):
     """query -> edit through the public API -> query again with default arguments: the answer must describe the tree as it
     stands, not the encoding left behind by the earlier calls"""
@@ -727,7 +768,7 @@ def judge_stale(ctx, dendropy, case, pending):
 
 JUDGES = {"pyint": judge_pyint, "pred": judge_pred, "encode": judge_encode, "reencode": judge_reencode, "pair": judge_pair,
           "rebuild": judge_rebuild, "build": judge_build, "treepreds": judge_treepreds, "stalepred": judge_stale,
-          "compat": judge_compat, "ucanon": judge_ucanon, "lsb": judge_bitfunction, "normalize": judge_bitfunction}
+          "compat": judge_compat, "ucanon": judge_ucanon, "ucanon2": judge_ucanon2, "lsb": judge_bitfunction, "normalize": judge_bitfunction}
 
 
 def judge(ctx, dendropy, case, pending):
